@@ -88,7 +88,10 @@ T_AcceptPush ==
 T_Pop ==
   /\ Is("create_pop")
   /\ Ev.timeout_ms = Cfg.queue_timeout_ms
-  /\ (Ev.timed_out = 1) = (Ev.wait_ms > Ev.timeout_ms)       \* the queue timeout decision
+  \* the queue timeout decision. The hook logs wait_ms truncated to whole milliseconds and decides on the exact
+  \* Duration: at wait = 1000.3 ms it logs (wait_ms 1000, timed_out 1), so equality at the boundary is undecidable.
+  /\ (Ev.timed_out = 1 => Ev.wait_ms >= Ev.timeout_ms)
+  /\ (Ev.timed_out = 0 => Ev.wait_ms <= Ev.timeout_ms)
   /\ \E k \in 1..Len(queue) :
         /\ Ev.port = -1 \/ queue[k].sock = Ev.port
         /\ PopWith(k, IF Ev.timed_out = 1 THEN QT + 1 ELSE 0)
